@@ -1094,6 +1094,17 @@ fn classify(payload: Box<dyn std::any::Any + Send>) -> String {
         "stepbound".to_string()
     } else if msg.starts_with("no task was scheduled") {
         "schedbug".to_string()
+    } else if msg.starts_with("scheduled task is not runnable, expected to run ") {
+        // ReplayScheduler's assertion; the id is the number in the first pair of parentheses
+        let rest = &msg["scheduled task is not runnable, expected to run ".len()..];
+        let id: String = rest.chars().skip_while(|c| *c != '(').skip(1).take_while(|c| c.is_ascii_digit()).collect();
+        format!("replay-not-runnable:{}", id)
+    } else if msg.starts_with("schedule ended early") {
+        "replay-ended".to_string()
+    } else if msg.starts_with("expected context switch but next schedule step is random choice")
+        || msg.starts_with("expected random choice but next schedule step is context switch")
+    {
+        "replay-mismatch".to_string()
     } else {
         // the panicking task is the one chosen at the last decision
         let last = LOG.with(|l| {
@@ -1380,6 +1391,76 @@ pub fn run_replay(words: &[&str]) -> String {
         }
     }
     out.push_str(" ALLEQ");
+    out
+}
+
+/// replaytarget <kind> <seed> <param> <iters> <ms> <objs> <bodies>
+/// Runs the program under a real built-in scheduler; then, for the last execution (the failing one if the run failed)
+/// and up to three target events of it (the last operation record, the one in the middle, the one at a third), replays
+/// the recorded schedule with ReplayScheduler::set_target_clock(clock of that record).  Prints the original log and the
+/// log and termination of every restricted replay; the judgement (every record whose clock is below the target is
+/// reproduced) is made by tools/p_c15.py.
+pub fn run_replaytarget(words: &[&str]) -> String {
+    // an optional ninth word t<task> asks for one target: the last record of that task
+    let (words, pick_task): (&[&str], Option<usize>) = match words {
+        [head @ .., last] if words.len() == 9 && last.starts_with('t') => (head, last[1..].parse().ok()),
+        _ => (words, None),
+    };
+    let [_, kind, seed, param, iters, ms, objs, bodies] = words else {
+        return "ERR bad case".to_string();
+    };
+    let Some(config) = parse_config(ms) else { return "ERR bad max_steps".to_string() };
+    let seed: u64 = seed.parse().unwrap();
+    let param: usize = param.parse().unwrap();
+    let iters: usize = iters.parse().unwrap();
+    let prog = parse_prog(objs, bodies);
+    let Some((data, fail)) = run_kind(kind, seed, param, iters, config.clone(), prog.clone()) else {
+        return "ERR bad scheduler".to_string();
+    };
+    if std::thread::panicking() {
+        return "SKIP panicking".to_string();
+    }
+    let Some((log_a, sch)) = data.last() else { return "SKIP no execution".to_string() };
+    if fail.as_deref().unwrap_or("").starts_with("outside-execution") {
+        return "SKIP outside".to_string();
+    }
+    let toks: Vec<&str> = log_a.split(' ').collect();
+    let ops: Vec<usize> = toks.iter().enumerate().filter(|(_, t)| t.starts_with('O') && t.contains('@')).map(|(i, _)| i).collect();
+    if ops.is_empty() {
+        return "SKIP no records".to_string();
+    }
+    let mut picks = vec![ops[ops.len() - 1], ops[ops.len() / 2], ops[ops.len() / 3]];
+    picks.dedup();
+    picks.sort();
+    picks.dedup();
+    if let Some(t) = pick_task {
+        let pre = format!("O{}:", t);
+        picks = ops.iter().rev().find(|i| toks[**i].starts_with(&pre)).map(|i| vec![*i]).unwrap_or_default();
+    }
+    let mut out = format!("F={} ORIG={}", fail.clone().unwrap_or("-".into()), log_a.replace(' ', "|"));
+    for pk in picks {
+        let clk_text = toks[pk].rsplit('@').next().unwrap_or("");
+        let clk: Vec<u32> = clk_text.split('.').filter_map(|x| x.parse().ok()).collect();
+        if clk.is_empty() {
+            continue;
+        }
+        let sch2 = sch.clone();
+        let r = catch_unwind(AssertUnwindSafe(|| {
+            let mut rs = shuttle_schedulers::ReplayScheduler::new_from_schedule(sch2);
+            rs.set_target_clock(&clk[..]);
+            rs
+        }));
+        let (rdata, rfail) = match r {
+            Ok(rs) => run_recorded(rs, config.clone(), prog.clone()),
+            Err(_) => (vec![], Some("replay-constructor-panicked".to_string())),
+        };
+        let log_b = rdata.first().map(|x| x.0.clone()).unwrap_or_default();
+        out.push_str(&format!(" TGT={} CLK={} R={} LOG={}", pk, clk_text, rfail.unwrap_or("-".into()), log_b.replace(' ', "|")));
+        if std::thread::panicking() {
+            out.push_str(" STOP=panicking");
+            break;
+        }
+    }
     out
 }
 
@@ -1920,6 +2001,9 @@ pub fn run(words: &[&str]) -> String {
     }
     if words.first() == Some(&"progdfs") {
         return run_dfs(words);
+    }
+    if words.first() == Some(&"replaytarget") {
+        return run_replaytarget(words);
     }
     if words.first() == Some(&"replay") {
         return run_replay(words);
